@@ -26,6 +26,7 @@ import props  # noqa: E402
 VERIF = build.VERIF
 NPROC = int(os.environ.get('VERIF_JOBS', '16'))
 VERBOSE = bool(os.environ.get('VERIF_VERBOSE'))
+RETRIES = []
 
 STUBS = [
     '__rust_alloc/_zeroed/realloc/dealloc: fresh object, never fails (allocation failure out of scope)',
@@ -82,6 +83,9 @@ def run_pool(ll_paths, jobs, budget_s):
                     log('  done %s %s dec=%d: %s paths=%d wall=%.1fs solver=%.1fs remaining=%d' % (
                         r['harness'], r['label'], len(j.get('decisions', ())), r['status'], r['npaths'], r['wall'],
                         r['solver_time'], len(r['remaining'])))
+                if r.get('retried'):
+                    log('  engine retried once after an internal error: %s %s: %s' % (r['harness'], r['label'], r['retried'].replace('\n', ' | ')[-700:]))
+                    RETRIES.append((r['harness'], r['label']))
                 if r['status'] not in ('complete', 'partial') or r['violations']:
                     log('  %s %s params=%s: %s %s viol=%d' % (r['harness'], r['label'], r['params'], r['status'],
                                                               r['reason'][:300], len(r['violations'])))
@@ -369,7 +373,7 @@ def main():
                 print('note: Kani (second engine) does not reproduce the llsymex violation on its harness set')
         if inconclusive:
             broken.append('%d inconclusive instances, e.g. %s %s: %s' % (len(inconclusive), inconclusive[0]['harness'],
-                                                                      inconclusive[0]['label'], inconclusive[0]['reason'][:500]))
+                                                                      inconclusive[0]['label'], inconclusive[0]['reason'][:300] + (' ... ' + inconclusive[0]['reason'][-900:].replace('\n', ' | ') if len(inconclusive[0]['reason']) > 300 else '')))
         if vacuous:
             broken.append('%d vacuous instances (no cover point reached), e.g. %s %s' % (len(vacuous), vacuous[0]['harness'], vacuous[0]['label']))
         if unconfirmed:
@@ -457,6 +461,7 @@ def write_evidence(pid, tier, seed, spec, results, validated, nconfirmed, nnew, 
             'known_findings_hit': known_hits,
             'broken': broken,
             'second_engine_kani': spec.get('kani'),
+            'engine_internal_errors_retried': len(RETRIES),
             'stubs_in_force': STUBS,
             'explanation': 'bounded symbolic execution (llsymex) of rustc-emitted LLVM IR of the crate + std; verdict per assertion by z3/cvc5',
         },
